@@ -143,6 +143,19 @@ def invariant(st: State):
     return bad
 
 
+def producer_graph_rule(st: State):
+    """Documented meaning of Value.graph ("when the value is an output of a node, the owning graph is the graph that
+    the node belongs to").  NOT part of I(U): C01 lists its relations explicitly and the public API lets a graph
+    list a value produced elsewhere as its output.  Used by C17 for what a deserializer may return."""
+    _graphs, _nodes, values = st.universe()
+    bad = []
+    for v in values:
+        p = v.producer()
+        if p is not None and p.graph is not None and v.graph is not p.graph:
+            bad.append(f"[producer-graph] value {v.name!r} is produced by node {p.name} of graph {p.graph.name} but is owned by graph {getattr(v.graph, 'name', None)}")
+    return bad
+
+
 def snapshot(st: State):
     """S(U): every public accessor of every object, objects replaced by stable ids."""
     graphs, nodes, values = st.universe()
